@@ -72,8 +72,8 @@ Enabled(prod) ==
       [] Fam = "comp"  -> prod \in {"Comp", "Select", "Count", "Sum", "Cmp", "Add", "First", "True"}
       [] Fam = "helper" -> prod \in {"Select", "Where", "SelectMany", "Helper", "Add", "Cmp", "Count", "First"}
       [] Fam = "e2e"   -> prod \in {"Select", "Where", "SelectMany", "First", "Count", "Add", "Mul", "Cmp", "If",
-                                    "TupProj", "MethArgs", "MethKw", "Sum", "And", "BetaDef"}
-      [] Fam = "all"   -> prod \notin {"OtherMeth", "KwOp", "AggOdd", "MD", "OutIdx", "AbsentKey", "Comp", "Helper"}
+                                    "TupProj", "MethArgs", "MethKw", "Sum", "And", "BetaDef", "HelperE2E"}
+      [] Fam = "all"   -> prod \notin {"OtherMeth", "KwOp", "AggOdd", "MD", "OutIdx", "AbsentKey", "Comp", "Helper", "HelperE2E"}
       [] OTHER -> FALSE
 
 (* ------------------------------------------------------------------ *)
@@ -120,6 +120,7 @@ Leaves(s, ns, ss) ==
       \cup ProjRefs(s, ns, ss) \cup BadProjRefs(s, ns, ss)
       \cup (IF s = "SeqEvt" THEN {Name("ds")} ELSE {})
       \cup (IF s = "Int" THEN {IntC(1)} ELSE {})
+      \cup (IF s = "Int" /\ Fam = "e2e" THEN {Name("CUT")} ELSE {})        \* a captured module-level constant
       \cup (IF s = "Bool" /\ Enabled("True") THEN {BoolC(TRUE)} ELSE {})
       \cup (IF s = "Bool" /\ (Fam = "comp" \/ Rand)      \* (random walks must never dead-end on a Boolean hole)
             THEN {Cmp(">", f, IntC(1)) : f \in VarsOf("Int", ns, ss) \cup FieldRefs("Int", ns, ss)} ELSE {})
@@ -330,6 +331,13 @@ NonLeaf(h) ==
           {Fn("h_d3", <<Hole("Int", r, ns, ss)>>)} \cup
           {Fn("h_d3", <<Hole("Int", sp[1], ns, ss), Hole("Int", sp[2], ns, ss)>>) : sp \in Split2(r)} \cup
           {CallK(Name("h_d3"), <<Hole("Int", sp[1], ns, ss)>>, <<"z">>, <<Hole("Int", sp[2], ns, ss)>>) : sp \in Split2(r)}
+       ELSE {}) \cup
+      (* ---- helpers in the end-to-end family (integer arguments only) ---- *)
+      (IF s = "Int" /\ Enabled("HelperE2E") THEN
+          {Fn(hn, <<Hole("Int", r, ns, ss)>>) : hn \in {"h_id", "h_inc", "h_d3"}} \cup
+          {Fn(hn, <<Hole("Int", sp[1], ns, ss), Hole("Int", sp[2], ns, ss)>>) : hn \in {"h_sub", "h_d3"}, sp \in Split2(r)} \cup
+          {CallK(Name("h_sub"), <<>>, <<"b", "a">>, <<Hole("Int", sp[1], ns, ss), Hole("Int", sp[2], ns, ss)>>) :
+              sp \in Split2(r)}
        ELSE {}) \cup
       (* ---- booleans ---- *)
       (IF s = "Bool" /\ Enabled("Cmp") THEN
